@@ -246,3 +246,31 @@ Example C06_rejected_fit_nonvacuous :
   option_map sel (sess_run s0 [VColdFF X2 FFNone (NTInt 0) sp 1 (NtsInt 4); VWarm X1 sp (NtsInt 5)])
     = Some [0; 4; 6; 5; 1]%nat.
 Proof. cbv zeta. repeat split; vm_compute; reflexivity. Qed.
+
+(* follow-up 2 (round 3): score thresholds.  For EVERY threshold t (none, absolute, relative, any
+   value) the object stops exactly when plain FPS stops, after the same selections, with the same
+   table and the same latched first score: the threshold is consulted only by the arg-max step
+   (best_new) the two share — _get_active and the update (oupd) do not take it at all. *)
+Theorem C06_threshold_stop_equals_fps :
+  forall X d br ycand prev i0 (t : thr) k, dims d X -> (i0 < length X)%nat ->
+    let rv := obj_fit_cold X br ycand prev i0 t k in
+    let rf := fps_fit X ycand [i0] t k in
+    snd rv = snd rf /\ length (sel (fst rv)) = length (sel (fst rf)) /\
+    sel (fst rv) = sel (fst rf) /\ o_haus (sst (fst rv)) = haus (sst (fst rf)) /\
+    first (fst rv) = first (fst rf).
+Proof. exact obj_threshold_stop. Qed.
+Print Assumptions C06_threshold_stop_equals_fps.
+
+(* non-vacuity: a relative threshold that is reached (stop after 3 of 7, first score 20201, the
+   remaining candidates at squared distance <= 2 — far below the raw number 1/100 * anything —
+   keep their TRUE distances), an absolute one reached later, a relative one never reached *)
+Example C06_threshold_nonvacuous :
+  let X1 := [[0;0];[1;0];[0;1];[100;100];[101;100];[100;101];[50;0]] in
+  let sp := fun _ _ => false in
+  let r := obj_fit_cold X1 sp None None 0 (RelThr 1 100) 7 in
+  sel (fst r) = [0; 4; 6]%nat /\ snd r = true /\ first (fst r) = Some 20201 /\
+  o_haus (sst (fst r)) = [Some 0; Some 1; Some 1; Some 1; Some 0; Some 2; Some 0] /\
+  sel (fst (fps_fit X1 None [0%nat] (RelThr 1 100) 7)) = [0; 4; 6]%nat /\
+  sel (fst (obj_fit_cold X1 sp None None 0 (AbsThr 2 1) 7)) = [0; 4; 6; 5]%nat /\
+  snd (obj_fit_cold X1 sp None None 0 (RelThr 1 100000) 5) = false.
+Proof. cbv zeta. repeat split; vm_compute; reflexivity. Qed.
